@@ -3,6 +3,7 @@ package props
 import (
 	"fmt"
 	"go/types"
+	"sort"
 	"strings"
 
 	"golang.org/x/tools/go/ssa"
@@ -138,6 +139,76 @@ func runC16(c *eng.Ctx) {
 			c.Check(eng.DominatedBy(d, s.Instr, []eng.Site{so}, nil), fmt.Sprintf("sort<compact[%d]", i), s.Instr, d, "tags are sorted before duplicates are compacted (a repeated key resolves to one value)", "")
 		}
 		c.Check(eng.DependsOnField(eng.CallArgs(so.Instr.(*ssa.Call))[0], pmT+".Tags"), "sorts-the-tags", so.Instr, d, "what is sorted is the metric's tag list", "")
+	})
+
+	// ---- 2b. the name hash is the hash of the namespace and name that are stored ---------------------------------------------------
+	c.Rule("PROV", cvtT+".MarshalProtoMetricV1{name hash of the stored namespace+name}", func() {
+		m := c.Fn(cvtT + ".MarshalProtoMetricV1")
+		stored := map[string]string{}
+		for role, adder := range map[string]string{"namespace": "MetricAddNamespace", "name": "MetricAddName"} {
+			ad := c.One(m, eng.CallTo(flatP+"."+adder), adder+"(builder, offset)")
+			for _, cs := range p.CallsIn(eng.CallArgs(ad.Instr.(*ssa.Call))[1], "github.com/google/flatbuffers/go.Builder.CreateString") {
+				stored[role] = p.Desc(eng.CallArgs(cs)[0])
+			}
+			if stored[role] == "" {
+				c.Undecided("the %s written to the row is not a Builder.CreateString(...) value", role)
+			}
+		}
+		nh := c.One(m, eng.CallTo(flatP+".MetricAddNameHash"), "MetricAddNameHash(builder, hash)")
+		sum := p.CallsIn(eng.CallArgs(nh.Instr.(*ssa.Call))[1], "github.com/cespare/xxhash/v2.Sum64", "github.com/cespare/xxhash/v2.Sum64String")
+		c.Check(len(sum) > 0, "hash-is-xxhash", nh.Instr, m, "the stored name hash is an xxhash sum", "stores "+p.Desc(eng.CallArgs(nh.Instr.(*ssa.Call))[1]))
+		hashed := map[string]bool{}
+		var at ssa.Instruction
+		for _, w := range c.Some(m, invokeOn(".hashBuf", "WriteString", "Write", "WriteByte"), "hashBuf.Write…(part of the name)") {
+			hashed[p.DescUp(eng.Unwrap(eng.CallArgs(w.Instr.(*ssa.Call))[0]))] = true
+			at = w.Instr
+		}
+		var hs []string
+		for k := range hashed {
+			hs = append(hs, k)
+		}
+		sort.Strings(hs)
+		okSet := len(hashed) == 2 && hashed[stored["namespace"]] && hashed[stored["name"]]
+		c.Check(okSet, "hash-inputs-are-the-stored-strings", at, m,
+			"the name hash (the identity under which the storage node files the row's metric) is computed from exactly the namespace and the name that are written into the row — after enrichment and sanitizing — so that it agrees with what every other reader of the row derives from those strings",
+			fmt.Sprintf("hashes {%s}; stores namespace=%s name=%s", strings.Join(hs, ", "), stored["namespace"], stored["name"]))
+	})
+
+	// ---- 2c. rows are grouped into families of the SMALLEST configured interval --------------------------------------------------
+	c.Rule("PROV", "replica.newDatabaseChannel{write interval = smallest configured interval}", func() {
+		f := c.Fn("replica.newDatabaseChannel")
+		st := c.One(f, eng.StoreField(dchT+".interval"), "ch.interval = intervals[0].Interval")
+		var from *ssa.IndexAddr
+		eng.WalkExpr(st.Instr.(*ssa.Store).Val, func(x ssa.Value) bool {
+			if ia, ok := x.(*ssa.IndexAddr); ok && from == nil {
+				from = ia
+			}
+			return true
+		})
+		if from == nil {
+			c.Undecided("ch.interval is not read from an element of an interval list: %s", p.Desc(st.Instr.(*ssa.Store).Val))
+		}
+		k, isC := eng.ConstInt(from.Index)
+		c.Check(isC && k == 0, "first-element", st.Instr, f, "the write interval is the first element of the sorted interval list", "index "+p.Desc(from.Index))
+		sorted := false
+		why := "no sort.Sort / sort.Slice of " + p.Desc(from.X) + " before the read"
+		for _, so := range p.Sites(f, eng.CallTo("sort.Sort", "sort.Stable", "sort.Slice", "sort.SliceStable", "slices.SortFunc")) {
+			a := eng.Unwrap(so.Instr.(*ssa.Call).Common().Args[0])
+			if mi, ok := a.(*ssa.MakeInterface); ok {
+				a = eng.Unwrap(mi.X)
+			}
+			same := eng.SameValue(a, from.X) || p.Desc(a) == p.Desc(from.X)
+			if !same {
+				why = "what is sorted is " + p.Desc(a) + ", what is read is " + p.Desc(from.X)
+				continue
+			}
+			if eng.DominatedBy(f, st.Instr, []eng.Site{so}, nil) {
+				sorted = true
+			}
+		}
+		c.Check(sorted, "sorted-list-is-the-list-read", st.Instr, f,
+			"the list whose first element becomes the write interval is the list that was sorted (ascending) just before: the family of every written row is computed with this interval, and the storage side keeps its write families by the smallest interval",
+			why)
 	})
 
 	// ---- 4. every simple field type has a case ---------------------------------------------------------------------------------
